@@ -23,14 +23,22 @@ def gen_dat(rng, ctx, pts3, cross, malformed=None):
     ngc = rng.choice([0, 0, 1, 2, 3, 4])
     ngr = rng.choice([0, 1, 2, 3, 5]) if ngc else rng.choice([0, 2])
     convert = dim == 3 and rng.random() < (0.5 if ctx.sph else 0.25)      # the option converts the row, whatever the world's coordinate system
+    # the unsupported combination: the conversion is documented for 3D only; a dim = 2 file that asks for it must be reported,
+    # whichever of the two option lines comes first
+    convert2d = dim == 2 and malformed is None and rng.random() < 0.4
     sep = rng.choice([' ', ', ', '  ', '\t'])
     lines = []
     lines.append(rng.choice(['# This is a comment in the data', '#', '# a b', '# dim', '# x y z d', '#   ', '# number of', '# convert spherical = false', '# grain compositions']))
     lines.append('# file.')
     opts = ['# dim = %d' % dim, '# compositions = %d' % ncomp, '# grain compositions = %d' % ngc, '# number of grains = %d' % ngr]
-    if convert:
+    if convert or convert2d:
         opts.append('# convert spherical = true')
     rng.shuffle(opts)
+    if convert2d:
+        # both orders of the two lines, evenly
+        ia, ib = opts.index('# dim = 2'), opts.index('# convert spherical = true')
+        if (ia < ib) != (rng.random() < 0.5):
+            opts[ia], opts[ib] = opts[ib], opts[ia]
     # option lines are honoured wherever they stand: all in the header (usual), or some of them between / behind the rows
     placement = rng.choice(['header', 'header', 'header', 'between', 'footer'])
     late = []
@@ -85,7 +93,7 @@ def gen_dat(rng, ctx, pts3, cross, malformed=None):
         if rng.random() < 0.05:
             lines.append('# a comment between the rows')
     lines += late
-    return '\n'.join(lines) + '\n', {'dim': dim, 'ncomp': ncomp, 'ngc': ngc, 'ngr': ngr, 'convert': convert, 'rows': rows, 'bad_row': bad_row, 'sep': sep, 'malformed': malformed, 'option_placement': placement}
+    return '\n'.join(lines) + '\n', {'dim': dim, 'ncomp': ncomp, 'ngc': ngc, 'ngr': ngr, 'convert': convert, 'rows': rows, 'bad_row': bad_row, 'sep': sep, 'malformed': malformed, 'option_placement': placement, 'convert2d': convert2d}
 
 
 def fmt_in(rng, v):
@@ -267,6 +275,14 @@ def main(tier, seed, replay):
             elif l.strip():
                 rows_out.append(l.split())
         if not world_ok:
+            continue
+        if spec.get('convert2d'):
+            V.count()
+            if rc == 0:
+                order = 'convert-first' if r['text'].find('# convert spherical') < r['text'].find('# dim =') else 'dim-first'
+                V.violation('unsupported-option-combination-not-reported:dim2-with-convert-spherical:%s' % order, dict(base, stdout_tail=out[-300:]))
+            else:
+                V.nontrivial(('convert2d', r['i']))
             continue
         if spec['bad_row'] is not None:
             V.count()
